@@ -8,11 +8,12 @@ struct any any__from_i32(int *v) { struct any a; a.which = 2; a.fd = *v; return 
 struct any any__from_str(cstring *v) { struct any a; a.which = 1; a.s = *v; return a; }
 struct CdnsEncoder;
 unsigned long g_rot;            /* rotations of the sink */
+_Bool g_open_fail;             /* the new output could not be opened */
 _Bool g_rot_with_pending;       /* the sink was rotated while bytes produced for the old output had not reached it */
 void BaseCborOutputWriter__rotate_output(struct BaseCborOutputWriter *w, struct any *v)
 {
   if (g_exc) return;
   if (g_sink_len != g_L0) g_rot_with_pending = 1;
   if (g_rot < 1000) g_rot++;
-  if (nondet_bool()) g_exc = EXC_CborOutputException;   /* the new output cannot be opened */
+  if (nondet_bool()) { g_open_fail = 1; g_exc = EXC_CborOutputException; }   /* the new output cannot be opened */
 }
